@@ -145,6 +145,27 @@ class DictMixin:
             if len(args) > 1:
                 return args[1]
             raise PyRaise(VExc("KeyError"))
+        if name == "update":
+            other = args[0]
+            if not (isinstance(other, VRef) and other.cls == "dict"):
+                raise Unsupported("dict.update with a non-dict")
+            if other.elem is None:
+                return NONE
+            kb, vb = self.d_tags(recv)
+            odom, omap = self.d_dom(other, st), self.d_map(other, st)
+            ndom = fresh("upd_dom", dom.sort())
+            nmap = fresh("upd_map", mp.sort())
+            k = z3.Const(fresh_name("uk"), sort_of(kb))
+            st.assume(z3.ForAll([k], z3.And(
+                z3.Select(ndom, k) == z3.Or(z3.Select(dom, k),
+                                            z3.Select(odom, k)),
+                z3.Select(nmap, k) == z3.If(z3.Select(odom, k),
+                                            z3.Select(omap, k),
+                                            z3.Select(mp, k)))))
+            self.d_set_dom(recv, st, ndom)
+            self.d_set_map(recv, st, nmap)
+            st.write("$card", recv.e, fresh("upd_card", INT), "int")
+            return NONE
         if name == "copy":
             new = self.alloc(st, "dict", recv.elem, "dcopy")
             self.d_set_dom(new, st, dom)
